@@ -262,7 +262,7 @@ func c10Case(c *Ctx, k int, rng *rand.Rand, label string) {
 
 func runC10(c *Ctx) {
 	c.Rep.Rule = "G in {2,3,4,8,16,64} goroutines x GOMAXPROCS in {1,2,4,16}, each goroutine 6..35 operations drawn from about 70 (Marshal, MarshalIndent, Colorize, Encoder, Unmarshal, Decoder, Valid/Compact/Indent, MarshalContext with one FieldQuery shared by all goroutines, one compiled Path shared by all goroutines) over declared types no other code touches and reflect.StructOf types made for the case (cold fast-path slots in a fresh worker process, cold slow-path map entries in every case); every result against the same call made alone afterwards; a case that does not finish in 60 s is a dead lock. Two builds: the production build and a -race build of the same harness (GORACE halt_on_error: any report of the race detector inside the library ends the worker and is attributed to the case). non-trivial = every case"
-	n := 64
+	n := 160
 	if c.Thorough() {
 		n = 2000
 	}
@@ -281,7 +281,7 @@ func runC10(c *Ctx) {
 		c.Oracle("race-build-available", "VERIF_HARNESS_RACE_EXE", "not set", "bin/check builds the harness with -race", false, "")
 		return
 	}
-	nr := 24
+	nr := 64
 	if c.Thorough() {
 		nr = 400
 	}
